@@ -113,7 +113,7 @@ def run(ctx):
             for (a, b, body) in spans:
                 if body == 'nl':
                     # a newline that is an operator node of its own: a comment may be put right before it
-                    if prev_end is not None and not prev_body and s[a:a + 1] == '\n': edits.append((a, ' # c')); edits.append((a, '\t#x;y'))
+                    if prev_end is not None and not prev_body and s[a:a + 1] == '\n': edits.append((a, ' # c')); edits.append((a, '\t#x;y')); edits.append((a, ' #c \\'))
                     body = False
                 if prev_end is not None and a > prev_end and not prev_body and not body:
                     gap = s[prev_end:a]
@@ -124,6 +124,8 @@ def run(ctx):
                         if '\\\n' in gap and gap[:1] in ' \t': edits.append((prev_end + gap.index('\\\n'), '\\\n'))
                     if gap.lstrip(' \t').startswith('\n'):
                         edits.append((prev_end, ' # c'))
+                        # a comment that ends in a backslash: no continuation inside a comment, the next line is untouched
+                        edits.append((prev_end, ' # c\\')); edits.append((prev_end, '\t#\\\\'))
                 prev_end = max(prev_end or 0, b); prev_body = body
             # layout at the end of a line that holds a here-document operator, also inside substitutions (whose inner gaps the leaf spans do not show)
             import re as _re
